@@ -74,6 +74,10 @@ pub struct Profile {
     /// chance (n/8) per entry result struct to be also bound as a storage buffer (directly, as array
     /// element or nested in a fresh struct)
     pub out_as_storage: u32,
+    /// chance (n/8) per function body to mention a resource without using it (`_ = tex;`,
+    /// `let p = &buf;`). Such a mention is not a use for naga/wgpu, so the visibility properties keep
+    /// this off; it exists for differential properties (C17).
+    pub phony_refs: u32,
 }
 
 impl Profile {
@@ -109,6 +113,7 @@ impl Profile {
             use_all_resources: false,
             vin_as_storage: 0,
             out_as_storage: 0,
+            phony_refs: 0,
         }
     }
 }
@@ -1103,6 +1108,32 @@ pub fn gen_shader(ch: &mut Ch, p: &Profile) -> Shader {
                 gen_block(ch, &cx, p.stmts, 0)
             };
             sh.entries.push(Entry { stage: *stage, name, params, result, wg, body });
+        }
+    }
+    if p.phony_refs > 0 {
+        let res: Vec<usize> = (0..sh.globals.len()).filter(|i| sh.globals[*i].binding.is_some()).collect();
+        if !res.is_empty() {
+            let mut k = 0;
+            let n_f = sh.funcs.len();
+            for bi in 0..(n_f + sh.entries.len()) {
+                if !ch.chance(p.phony_refs, 8) {
+                    continue;
+                }
+                let gi = *ch.pick(&res);
+                let name = sh.globals[gi].name.clone();
+                let stmt = match &sh.globals[gi].kind {
+                    GKind::Buf { .. } => {
+                        k += 1;
+                        format!("let phony_{k} = &{name};")
+                    }
+                    _ => format!("_ = {name};"),
+                };
+                if bi < n_f {
+                    sh.funcs[bi].body.push(Stmt::Raw(stmt));
+                } else {
+                    sh.entries[bi - n_f].body.push(Stmt::Raw(stmt));
+                }
+            }
         }
     }
     // entry points of different stages are interleaved in declaration order
